@@ -52,3 +52,13 @@ VARIANTS += [
  V("c41-e1-marker-close-error-dropped", "C41", "C41.E1", "objstorage/objstorageprovider/remote.go",
    "	if err == nil {\n		// The object is empty, just close the writer.\n		err = writer.Close()\n	}", "	if err == nil {\n		defer func() { _ = writer.Close() }()\n	}"),
 ]
+VARIANTS += [
+ V("c39-p3-newiters-leaks-ref-on-error", "C39", "C39.P3", "file_cache.go",
+   "		_ = iters.CloseAll()\n		vRef.Unref()\n		return iterSet{}, err", "		_ = iters.CloseAll()\n		return iterSet{}, err"),
+ V("c39-p3-withreader-no-unref", "C39", "C39.P3", "file_cache.go",
+   "	defer ref.Unref()\n", ""),
+]
+VARIANTS += [
+ V("c46-s1-split-at-last-equals", "C46", "C46.S1", "options.go",
+   "		pos := strings.Index(line, \"=\")\n		if pos < 0 {", "		pos := strings.LastIndex(line, \"=\")\n		if pos < 0 {"),
+]
